@@ -22,6 +22,7 @@ type c17Params struct {
 	Drains   int   `json:"drains"`    // DrainTo calls of the consumer thread
 	RandOpts int   `json:"rand_opts"` // >1: every Fastrand answer is an environment choice among this many values
 	BufSize  int   `json:"buf_size"`  // ring size of the instrumented build (small variant: 4, native: 16)
+	Doubles  int   `json:"doubles"`   // table doublings applied after the prefill (reachable through contention; see VerifDouble)
 }
 
 func init() {
@@ -57,6 +58,9 @@ func c17Body(x *Exec, raw json.RawMessage) {
 		}
 	}
 	nativeAdd(p.Prefill)
+	for i := 0; i < p.Doubles; i++ {
+		s.VerifDouble()
+	}
 	if p.PreDrain {
 		s.DrainTo(deliver)
 	}
@@ -117,9 +121,18 @@ func c17Body(x *Exec, raw json.RawMessage) {
 	if len(order) > 0 {
 		x.Count("concurrent-deliveries")
 	}
-	if n := s.VerifStripes(); n > 1 {
+	if n := s.VerifStripes(); n > 1 && p.Doubles == 0 {
 		x.Count("expanded")
 		x.Obsf("stripes=%d", n)
+	}
+	gap := false
+	for _, attached := range s.VerifLayout() {
+		if !attached {
+			gap = true
+		} else if gap {
+			x.Count("ring-behind-empty-stripe")
+			break
+		}
 	}
 	if bs := lossy.VerifBufferSize(); bs != p.BufSize {
 		x.Fail("infra", "buffer-size", "instrumented build has ring size %d, scenario expects %d", bs, p.BufSize)
